@@ -67,5 +67,13 @@ func IsNil(node interface{}) bool {
 		return true
 	}
 
-	return reflect.ValueOf(node).IsNil()
+	// Only some kinds of values can be nil. Anything else (such as a number
+	// produced by a query) is never nil, rather than a panic.
+	switch v := reflect.ValueOf(node); v.Kind() {
+	case reflect.Ptr, reflect.Map, reflect.Slice, reflect.Interface,
+		reflect.Chan, reflect.Func:
+		return v.IsNil()
+	}
+
+	return false
 }
